@@ -7,3 +7,5 @@ import MtailVerif.Props.C22
 #print axioms MtailVerif.C22.one_record_per_label_set
 #print axioms MtailVerif.C22.one_record_per_label_set_handlers
 #print axioms MtailVerif.C22.export_skeletons
+#print axioms MtailVerif.C22.record_name_determines_label_set
+#print axioms MtailVerif.C22.distinct_label_sets_distinct_names
